@@ -306,7 +306,7 @@ impl EngA {
         if !devs.is_empty() {
             c.deviated.fetch_add(1, AO::Relaxed);
         }
-        let sets = desugar(prog);
+        let sets = desugar(&effective(prog, devs));
         let (strict, loose) = match &sets {
             Some(s) => (self.ref_bits(s), self.ref_bits(&loosen(s))),
             None => (self.u.zero(), self.u.zero()),
@@ -450,7 +450,8 @@ fn snapshot(c: &ACounters) -> BTreeMap<String, u64> {
 /// non-conflicting pairs.
 fn deviation_family(e: &EngA, prog: &Prog, pairs: bool, sink: &Sink, c: &ACounters, kinds: &std::sync::Mutex<BTreeMap<String, u64>>) {
     let base = e.check_c01(prog, &[], sink, c, None);
-    let ss = sites(prog);
+    let mut ss = sites(prog);
+    ss.extend(nosep_sites(prog));
     let mut local: BTreeMap<String, u64> = BTreeMap::new();
     for d in &ss {
         *local.entry(d.kind().to_string()).or_insert(0) += 1;
@@ -1342,6 +1343,21 @@ pub fn fixture_programs(e: &EngA) -> Vec<(Prog, Vec<Dev>)> {
             out.push((vec![Alt::Set(vec![s(i)]), Alt::Set(vec![s(j)])], vec![]));
         }
     }
+    // a missing blank between two comparators (value-changing deviation): pairs, and the pair next to a third comparator
+    for i in 0..m {
+        for j in 0..m {
+            let s = |x: usize| Simple::P(e.core[x].0, e.core[x].1.clone());
+            let p2 = vec![Alt::Set(vec![s(i), s(j)])];
+            for d in nosep_sites(&p2) {
+                out.push((p2.clone(), vec![d]));
+            }
+            let k = (i * 7 + j * 3) % m;
+            let p3 = vec![Alt::Set(vec![s(k), s(i), s(j)])];
+            for d in nosep_sites(&p3) {
+                out.push((p3.clone(), vec![d]));
+            }
+        }
+    }
     out
 }
 
@@ -1394,7 +1410,7 @@ pub fn oracle_crosscheck() -> Result<(u64, u64, u64, String), String> {
             if caret_00 {
                 return (0, None);
             }
-            let sets = desugar(prog);
+            let sets = desugar(&effective(prog, devs));
             let node = &answers[k];
             match (&sets, node.as_str()) {
                 (None, None) => (0, None),
